@@ -40,7 +40,11 @@ func keyString(k interface{}) string {
 	case string:
 		return x
 	case ssa.Value:
-		return fmt.Sprintf("%p", x)
+		// SSA register names are unique within a function and stable from run to run
+		if ins, ok := x.(ssa.Instruction); ok && ins.Parent() != nil {
+			return "v:" + ins.Parent().Name() + ":" + x.Name()
+		}
+		return "v:" + x.Name()
 	}
 	return fmt.Sprintf("%v", k)
 }
@@ -142,8 +146,15 @@ func (a *FuncAn) joinCFacts(r, A, B *State) {
 		var guards []cfact
 		for k, v := range X.truth {
 			if w, ok := Y.truth[k]; ok && w != v {
-				if _, isStr := k.(string); isStr { // only stable keys (pure-call keys, projected fields)
+				switch kk := k.(type) {
+				case string: // pure-call keys, projected fields
 					guards = append(guards, cfact{gkey: k, gval: v})
+				case ssa.Value:
+					// a boolean SSA value tested more than once (`failed := p.hasError()` … `if failed`): its truth is
+					// the same wherever it is tested
+					if _, isConst := kk.(*ssa.Const); !isConst {
+						guards = append(guards, cfact{gkey: k, gval: v})
+					}
 				}
 			}
 		}
